@@ -632,10 +632,13 @@ def full_stack_pending_commands(ctx, thorough):
     for gen in (4, 5):
         # (an outage of 12 s: the commands are still wanted when the connection returns; of 37 s: all of them have outlived the 30 s their
         # sender asked for and are discarded - they hold no room against the refresh)
-        for n, back in [(n, 200) for n in (0, 1, 5, 8, 9, 10)] + [(n, 400) for n in (5, 9, 10)]:
+        # (n = 2 at back = 201: the first command is issued in the very tick in which the console closes the connection - while the client is
+        # still taking the connection down)
+        for n, back in [(n, 200) for n in (0, 1, 5, 8, 9, 10)] + [(n, 400) for n in (5, 9, 10)] + [(2, 201), (3, 201)]:
+            first_call = 105 if back == 201 else 106
             sc = dict(inst=fullstack.INST, horizon=back + 300, ac_state=[dict(id=0, power=1, mode=4, fan=0, setpoint=22, temp=235, err=0)], err_text={0: b""},
                       changes=[(120, 0, 5, text)], faults=[(100, "refuse"), (105, "eof"), (back, "accept")],
-                      calls=[(106 + i, ["power", "zone", "toggle"][i % 3]) for i in range(n)])
+                      calls=[(first_call + i, ["power", "zone", "toggle"][i % 3]) for i in range(n)])
             b = fullstack.run(gen, sc)
             ctx.case(("full-stack-pending-commands", gen, n, back))
             if b.get("init_result") is not True:
